@@ -30,11 +30,11 @@ else
   sel="--lib -- $demo_tests"
 fi
 echo "### demo on clean tree: cargo test -p dust_dds --offline $sel" >> $log
-( cd $wt && timeout 1500 cargo test -p dust_dds --offline $sel 2>&1 | grep -E "^test |test result|error(\[|:)" | tail -15 ) >> $log 2>&1
+( cd $wt && timeout 1500 unshare -n bash -c "ip link set lo up; ip link set lo multicast on; ip route add 224.0.0.0/4 dev lo; cargo test -p dust_dds --offline $sel 2>&1" | grep -E "^test |test result|error(\[|:)" | tail -15 ) >> $log 2>&1
 clean_ok=$(grep -c "test result: ok" $log)
 git apply $out/patch.diff || { echo "PATCH DOES NOT APPLY" >> $log; exit 2; }
 echo "### demo with patch" >> $log
-( cd $wt && timeout 1500 cargo test -p dust_dds --offline $sel 2>&1 | grep -E "^test |test result|error(\[|:)" | tail -15 ) >> $log 2>&1
+( cd $wt && timeout 1500 unshare -n bash -c "ip link set lo up; ip link set lo multicast on; ip route add 224.0.0.0/4 dev lo; cargo test -p dust_dds --offline $sel 2>&1" | grep -E "^test |test result|error(\[|:)" | tail -15 ) >> $log 2>&1
 mut_fail=$(grep -c "test result: FAILED" $log)
 echo "### existing suite with patch (demo removed)" >> $log
 git apply -R $out/demo.diff
